@@ -187,6 +187,24 @@ def grade_alone(graders, inp, seed, rec):
     return out
 
 
+def check_single_feedback(kind, alts, singles, inp, rec):
+    """Base case of the differential, judged against the CONFIGURATION: an input that earns an alternative's whole
+    credit g > 0 against that alternative alone is a full match of it, and the feedback reported is that
+    alternative's own message.  (A seeded change recomputed ok per sample so that alternatives worth less than 1 were
+    no longer recognised as matched: right grade, feedback lost - invisible to a purely differential oracle.)"""
+    if kind not in ('S', 'F', 'N', 'M'):
+        return
+    flat = [alt for alt in alts for _ in range(len(alt['e']))]
+    for alt, (status, r) in zip(flat, singles):
+        if status != 'ok' or not alt['g'] > 0 or r['grade_decimal'] != alt['g']:
+            continue
+        rec.cls('single/full-match-feedback-checked')
+        if r['msg'] not in (fmt(alt['m']), alt['m']):
+            raise Violation('single/matched-alternative-feedback-lost',
+                            '%s grader, input %r matches the alternative %r (credit %r) but the message is %r, not '
+                            'the alternative\'s own message %r' % (kind, inp, alt['e'], alt['g'], r['msg'], alt['m']))
+
+
 def derive(singles, wrong):
     """What the statement allows for the full grader, from the results against each alternative alone."""
     errs = [v for s, v in singles if s == 'err']
@@ -301,7 +319,9 @@ def run_item(kind, opts, alts, wrong, inputs, orders, seed, rec, untupled=False)
     sg = single_graders(kind, opts, alts)
     wants, nt = [], False
     for inp in inputs:
-        want = derive(grade_alone(sg, inp, seed, rec), wrong)
+        singles = grade_alone(sg, inp, seed, rec)
+        check_single_feedback(kind, alts, singles, inp, rec)
+        want = derive(singles, wrong)
         nt = classify(rec, want, alts, wrong) or nt
         wants.append(want)
     n = len(alts)
